@@ -63,6 +63,9 @@ def cargo_build(package, release=False, features=None, no_default=False, extra_e
     return (path, p.stderr) if not infra else path
 
 
+MAX_WORKLOAD_BYTES = 6 << 30
+
+
 def run_driver(binary, rows, name, workers=None, budget=1 << 30, timeout=30, keep=False):
     """rows: iterable of lists (id, api, cols...).  -> dict id -> event (last record per id)."""
     d = os.path.join(BUILD, 'run')
@@ -70,10 +73,25 @@ def run_driver(binary, rows, name, workers=None, budget=1 << 30, timeout=30, kee
     tsv = os.path.join(d, f'{name}.{os.getpid()}.in.tsv')
     out = os.path.join(d, f'{name}.{os.getpid()}.ev.jsonl')
     n = 0
+    # leftovers of runs that were killed (their pid is gone)
+    for fn in os.listdir(d):
+        m = re.match(r'.*\.(\d+)\.(in\.tsv|ev\.jsonl)$', fn)
+        if m and not os.path.exists(f'/proc/{m.group(1)}'):
+            try:
+                os.remove(os.path.join(d, fn))
+            except OSError:
+                pass
+    written = 0
     with open(tsv, 'w') as f:
         for r in rows:
-            f.write('\t'.join(str(x) for x in r) + '\n')
+            line = '\t'.join(str(x) for x in r) + '\n'
+            f.write(line)
+            written += len(line)
             n += 1
+            if written > MAX_WORKLOAD_BYTES:
+                f.close()
+                os.remove(tsv)
+                raise Inconclusive(f'workload {name} exceeds {MAX_WORKLOAD_BYTES >> 30} GiB of driver input: the check generates more than it can run')
     t0 = time.time()
     p = subprocess.run([binary, 'run', tsv, out, '--workers', str(workers or NCPU), '--budget', str(budget),
                         '--timeout', str(timeout)], stdout=subprocess.PIPE, stderr=subprocess.PIPE, text=True)
